@@ -36,7 +36,8 @@ import (
 )
 
 type cwRegime struct {
-	preTx bool // the whole history stays before TimeToStartTx (no user transactions; ETX count window 50..100)
+	preTx bool   // the whole history stays before TimeToStartTx (no user transactions; ETX count window 50..100)
+	epoch uint64 // blocks per coinbase lockup epoch (0: 6); a long epoch keeps one lockup record per (contract, miner, byte) alive across a fork
 }
 
 // cwSetParams rescales the protocol's horizons (all package-level variables of params / types) so that lockups
@@ -49,6 +50,9 @@ func cwSetParams(rg cwRegime) {
 	params.LockupByteToBlockDepth[3] = 9
 	params.ConversionLockPeriod = 3 // as in production: equal to the shortest lockup depth (conversions are redeemed by the same look-back)
 	params.CoinbaseEpochBlocks = 6
+	if rg.epoch != 0 {
+		params.CoinbaseEpochBlocks = rg.epoch
+	}
 	params.ControllerKickInBlock = 0
 	params.CoinbaseLockupPrecompileKickInHeight = 0
 	if rg.preTx {
@@ -63,6 +67,9 @@ func cwSetParams(rg cwRegime) {
 	if os.Getenv("QVH_LOG") != "" {
 		log.Global.SetOutput(os.Stderr)
 		log.Global.SetLevel(3) // logrus.WarnLevel
+		if os.Getenv("QVH_LOG") == "info" {
+			log.Global.SetLevel(4)
+		}
 	}
 	log.Global.ExitFunc = func(c int) { panic(fmt.Sprintf("log.Fatal exit %d", c)) }
 }
@@ -95,6 +102,8 @@ type cwWorld struct {
 	spentInPool map[string]bool           // outpoints the generator already used in a submitted Qi transaction
 	plan        *cwPlan                   // a contract deployment onto an address that was funded beforehand
 	hunt        bool                      // time spends of small unlocked outputs to the block that trims them
+	busy        bool                      // more region blocks, and every one of them delivers a burst of lockup coinbases
+	forceRegion int                       // when it counts down to zero the block being built is of region order
 	qiBoost     int                       // extra Qi spends per round
 	born        map[types.OutPoint]uint64 // creation height of outputs made on this chain
 }
@@ -168,6 +177,38 @@ func cwWatch() (out []common.Address, allocs []params.GenesisAccount) {
 	return
 }
 
+// cwFresh: Quai addresses of zone 0-0 that do not exist at genesis and never transact: the first payout they can afford
+// creates them, less the account-creation fee
+func cwFresh() (out []common.Address) {
+	for i := 0; len(out) < 2; i++ {
+		b := crypto.Keccak256([]byte("qvh-fresh"), big.NewInt(int64(i)).Bytes())[:20]
+		b[0] = 0
+		addr := common.BytesToAddress(b, common.Location{0, 0})
+		if _, err := addr.InternalAndQuaiAddress(); err != nil {
+			continue
+		}
+		out = append(out, addr)
+	}
+	return
+}
+
+// creationFee: what RedeemLockedQuai withholds from the first payout to a new account in a child of `parent`
+func creationFee(parent *types.WorkObject) *big.Int {
+	return new(big.Int).Mul(new(big.Int).SetUint64(params.CallNewAccountGas(parent.QuaiStateSize())), big.NewInt(params.InitialBaseFee))
+}
+
+// newHierWorld: the same generator on top of a real prime / region / zone hierarchy: inbound ETXs are whatever the
+// dominant chains confirm, nothing is synthesised
+func newHierWorld(rc *h.Rng, rg cwRegime) (*cwWorld, error) {
+	quai, allocs := cwAccounts()
+	_, wallocs := cwWatch()
+	hr, err := newHier(append(allocs, wallocs...))
+	if err != nil {
+		return nil, err
+	}
+	return &cwWorld{node: hr.asZoneNode(), rc: rc, rg: rg, quai: quai, qi: cwQiKeys(12), hist: map[string]int{}, spentInPool: map[string]bool{}, born: map[types.OutPoint]uint64{}}, nil
+}
+
 func newWorld(db ethdb.Database, rc *h.Rng, rg cwRegime, opts zoneOpts) (*cwWorld, error) {
 	quai, allocs := cwAccounts()
 	_, wallocs := cwWatch()
@@ -198,6 +239,10 @@ func (w *cwWorld) randQuaiAddr() common.Address { return w.quai[w.rc.Intn(len(w.
 
 // rewardAddr: a Quai address to pay a reward to - often one of the watch-only addresses
 func (w *cwWorld) rewardAddr() common.Address {
+	if w.rc.Chance(12) {
+		fs := cwFresh()
+		return fs[w.rc.Intn(len(fs))]
+	}
 	if w.rc.Chance(50) {
 		ws, _ := cwWatch()
 		return ws[w.rc.Intn(len(ws))]
@@ -239,13 +284,54 @@ func (w *cwWorld) synthInbound(blkNum uint64) types.Transactions {
 		w.count(fmt.Sprintf("etx:own-type%d", e.EtxType()))
 	}
 	w.emitted = nil
+	if blkNum == params.TimeToStartTx {
+		to := w.rewardAddr()
+		add("cb-quai", &types.ExternalTx{OriginatingTxHash: w.etxHash(), ETXIndex: 100, Gas: params.TxGas, To: &to, Value: big.NewInt(1e15 + int64(rc.Intn(1e9))), Data: append([]byte{byte(rc.Intn(4))}, w.etxHash().Bytes()...), Sender: to, EtxType: types.CoinbaseType})
+		if rc.Bool() {
+			qto := w.randQiAddr()
+			add("cb-qi", &types.ExternalTx{OriginatingTxHash: w.etxHash(), ETXIndex: 101, Gas: params.TxGas, To: &qto, Value: w.qiAmount(), Data: w.coinbaseData(byte(rc.Intn(4))), Sender: qto, EtxType: types.CoinbaseType})
+		}
+	}
+	if rc.Chance(30) {
+		// several plain coinbases of one lock byte for an account that may not exist yet, with amounts around the
+		// account-creation fee: they unlock together, and only the first that can afford it pays the fee
+		fs := cwFresh()
+		to, lock, fee := fs[rc.Intn(len(fs))], byte(rc.Intn(4)), creationFee(w.head())
+		for i, k := 0, 2+rc.Intn(2); i < k; i++ {
+			v := new(big.Int).Set(fee)
+			switch rc.Intn(6) {
+			case 0:
+				v.Sub(v, big.NewInt(1))
+			case 1:
+				v.SetInt64(1 + int64(rc.Intn(1000)))
+			case 2:
+			case 3:
+				v.Add(v, big.NewInt(1))
+			default:
+				v.Add(v, big.NewInt(1e15+int64(rc.Intn(1e9))))
+			}
+			if v.Sign() <= 0 {
+				v.SetInt64(1)
+			}
+			add("cb-quai-fresh", &types.ExternalTx{OriginatingTxHash: w.etxHash(), ETXIndex: uint16(300 + i), Gas: params.TxGas, To: &to, Value: v, Data: append([]byte{lock}, w.etxHash().Bytes()...), Sender: to, EtxType: types.CoinbaseType})
+		}
+	}
+	if w.owner != nil && (rc.Chance(60) || w.busy) {
+		// a burst of coinbases for one (contract, miner, lockup byte): the block rewrites one lockup record several
+		// times; always the same miner and byte, so that the record usually exists before the block
+		to, lock := w.quai[0].addr, byte(1)
+		for i, k := 0, 2+rc.Intn(2); i < k; i++ {
+			data := append(append([]byte{lock}, w.owner.Bytes()...), w.etxHash().Bytes()...)
+			add("cb-quai-burst", &types.ExternalTx{OriginatingTxHash: w.etxHash(), ETXIndex: uint16(200 + i), Gas: params.TxGas, To: &to, Value: big.NewInt(1e15 + int64(rc.Intn(1e9))), Data: data, Sender: to, EtxType: types.CoinbaseType})
+		}
+	}
 	n := rc.Intn(6)
 	if w.rg.preTx && rc.Chance(40) {
 		n = 40 + rc.Intn(120) // the ETX count window of the early chain
 	}
 	for i := 0; i < n; i++ {
 		lock := byte(rc.Intn(4))
-		kind := []int{0, 0, 1, 2, 3, 4, 5, 5, 6, 7, 8}[rc.Intn(11)] // Quai coinbases and Qi->Quai conversions a little more often
+		kind := []int{0, 0, 1, 2, 3, 4, 5, 5, 6, 7, 8, 8}[rc.Intn(12)] // Quai coinbases, Qi->Quai conversions and plain Qi outputs a little more often
 		if w.rg.preTx || blkNum < params.TimeToStartTx {
 			// blocks of the early chain have gas limit 0: only coinbase ETXs (which draw no gas) can exist there
 			kind = rc.Intn(3)
@@ -280,7 +366,7 @@ func (w *cwWorld) synthInbound(blkNum uint64) types.Transactions {
 		case 8: // Qi output from another zone
 			to := w.randQiAddr()
 			from := common.HexToAddress("0x1080000000000000000000000000000000000042", common.Location{1, 0})
-			add("xfer-qi", &types.ExternalTx{OriginatingTxHash: w.etxHash(), ETXIndex: uint16(i), Gas: params.TxGas, To: &to, Value: big.NewInt(int64(rc.Intn(12))), Sender: from, EtxType: types.DefaultType})
+			add("xfer-qi", &types.ExternalTx{OriginatingTxHash: w.etxHash(), ETXIndex: uint16(i), Gas: params.TxGas, To: &to, Value: big.NewInt(int64(rc.Intn(int(types.MaxTrimDenomination) + 3))), Sender: from, EtxType: types.DefaultType}) // the value of a Qi ETX is its denomination index
 		}
 	}
 	return out
@@ -740,6 +826,9 @@ func (w *cwWorld) build() (*cwStep, error) {
 	n.nextDt = uint64(rc.Intn(4))
 	if rc.Chance(10) {
 		n.nextDt = uint64(rc.Intn(40))
+	} else if rc.Chance(8) {
+		// a long pause: the retarget caps the gap it looks at (MaxTimeDiffBetweenBlocks)
+		n.nextDt = []uint64{99, 100, 101, 104, 105, 106, 600, 7200}[rc.Intn(8)]
 	}
 	lock := byte(rc.Intn(4))
 	n.nextData = []byte{lock}
@@ -750,12 +839,26 @@ func (w *cwWorld) build() (*cwStep, error) {
 		}
 	}
 	n.nextCoinbase = w.rewardAddr()
-	if rc.Chance(40) {
+	if rc.Chance(40) && w.head().PrimeTerminusNumber().Uint64() >= params.ControllerKickInBlock {
 		n.nextCoinbase = w.randQiAddr()
 	}
 	want := common.ZONE_CTX
-	if rc.Chance(30) {
+	if rc.Chance(30) || (w.busy && rc.Chance(40)) {
 		want = common.REGION_CTX
+		if n.h != nil && rc.Chance(45) {
+			want = common.PRIME_CTX
+		}
+	}
+	if !w.rg.preTx && n.h == nil && w.head().NumberU64(common.ZONE_CTX)+1 == params.TimeToStartTx && rc.Chance(85) {
+		// the block after this one is the first with a gas limit: let it receive coinbase ETXs (they start to be
+		// charged TxGas exactly there, by the worker and by the processor separately)
+		want = common.REGION_CTX
+	}
+	if w.forceRegion > 0 && n.h == nil {
+		w.forceRegion--
+		if w.forceRegion == 0 {
+			want = common.REGION_CTX
+		}
 	}
 	n.wantShare = rc.Chance(30)
 	blk, err := n.nextBlock(want)
@@ -763,7 +866,7 @@ func (w *cwWorld) build() (*cwStep, error) {
 		return nil, err
 	}
 	st := cwStep{blk: blk, order: want}
-	if want == common.REGION_CTX {
+	if want == common.REGION_CTX && n.h == nil {
 		st.inbound = w.synthInbound(blk.NumberU64(common.ZONE_CTX))
 	}
 	return &st, nil
@@ -773,6 +876,11 @@ func (w *cwWorld) build() (*cwStep, error) {
 func (w *cwWorld) commit(st *cwStep) error {
 	if err := w.node.appendBlock(st.blk, st.inbound); err != nil {
 		return err
+	}
+	if w.node.h != nil {
+		if b := w.node.hc.GetBlockByHash(st.blk.Hash()); b != nil {
+			st.blk = b
+		}
 	}
 	w.noteAppended(st)
 	return nil
